@@ -141,7 +141,11 @@ fn ensure_record_count(
     actual_record_count: usize,
     variable_column_index_map: &BTreeMap<String, usize>,
 ) -> Result<(), TruthTableFromCsvError> {
-    let expected_record_count = 2_usize.pow(variable_column_index_map.len() as u32);
+    let expected_record_count = 1_usize
+        .checked_shl(variable_column_index_map.len() as u32)
+        .ok_or(TruthTableFromCsvError::TooManyVariables {
+            variable_count: variable_column_index_map.len(),
+        })?;
 
     if actual_record_count != expected_record_count {
         return Err(
